@@ -247,6 +247,13 @@ func (w *world) step1(ev string) {
 		w.svc.Back(name)
 	case "failnext":
 		w.svc.FailNext(name, 1)
+	case "nfnext":
+		// the next request for the name fails with an error that says "not found"
+		w.svc.FailNext(name, 1)
+		if w.svc.NotFoundFail == nil {
+			w.svc.NotFoundFail = map[string]bool{}
+		}
+		w.svc.NotFoundFail[name] = true
 	case "clock":
 		switch name {
 		case "half":
